@@ -170,3 +170,85 @@ def kdf_cost_finding(c):
     if hit:
         c.finding_hit.add("F-C07-kdf-cost")
     return hit
+
+
+# ------------------------------------------------------------------------------- hostile key-derivation strings
+def _chunk(ty, data):
+    import struct, zlib
+    return struct.pack(">I", len(data)) + ty + data + struct.pack(">I", zlib.crc32(ty + data) & 0xFFFFFFFF)
+
+
+def hostile_phsf_archives():
+    """C07: CRC-valid archives whose ENCRYPTED entry (file entry and solid entry, AES/Camellia x CBC/CTR) carries a
+    well-formed or malformed key-derivation string that no writer of this tool produces: other output lengths
+    (1, 16, 31, 33, 64 bytes), a hash field of any length, missing salt / parameters, other algorithms, non-UTF-8.
+    The key only reaches the cipher when a password is given and the data is opened, so these are run through the
+    commands that decrypt (extract / list --solid / strip --keep-solid …) with --password."""
+    import base64
+    salt = "c2FsdHNhbHRzYWx0"
+    b64 = lambda n: base64.b64encode(bytes(range(n))).decode().rstrip("=")
+    strings = [b"$pbkdf2-sha256$i=1,l=%d$%s" % (l, salt.encode()) for l in (1, 16, 31, 32, 33, 64)]
+    strings += [("$pbkdf2-sha256$i=1,l=32$%s$%s" % (salt, b64(n))).encode() for n in (16, 32, 64)]
+    strings += [("$argon2id$v=19$m=8,t=1,p=1$%s$%s" % (salt, b64(n))).encode() for n in (4, 16, 31, 32, 33, 64)]
+    strings += [b"$argon2id$v=19$m=8,t=1,p=1$" + salt.encode(), b"$argon2i$v=19$m=8,t=1,p=1$" + salt.encode(), b"$argon2d$v=16$m=8,t=1,p=1$" + salt.encode(),
+                b"$argon2id$v=19$m=8,t=1,p=1", b"$pbkdf2-sha256$i=1,l=32", b"$pbkdf2-sha512$i=1,l=32$" + salt.encode(), b"$scrypt$ln=1,r=1,p=1$" + salt.encode(),
+                b"$pbkdf2-sha256$l=16$" + salt.encode(), b"$pbkdf2-sha256$i=0,l=32$" + salt.encode(), b"", b"$", b"$$$", b"\xff\xfe$x", b"garbage"]
+    sig = b"\x89PNA\r\n\x1a\n"
+    head = sig + _chunk(b"AHED", bytes(8))
+    data = bytes(range(16)) + bytes(32)          # an IV and two blocks
+    out = []
+    for s in strings:
+        for enc in (1, 2):
+            for mode in (0, 1):
+                out.append(head + _chunk(b"FHED", bytes([0, 0, 0, 0, enc, mode]) + b"f") + _chunk(b"PHSF", s) + _chunk(b"FDAT", data)
+                           + _chunk(b"FEND", b"") + _chunk(b"AEND", b""))
+                out.append(head + _chunk(b"SHED", bytes([0, 0, 0, enc, mode])) + _chunk(b"PHSF", s) + _chunk(b"SDAT", data)
+                           + _chunk(b"SEND", b"") + _chunk(b"AEND", b""))
+    return out
+
+
+DECRYPT_CMDS = ("extract", "list-solid", "strip-keepsolid", "chmod-keepsolid", "migrate")
+
+
+def hostile_phsf_cli(c, limit=None):
+    """every hostile key-derivation archive through the decrypting commands with a password, and through the library
+    (harness `dump`, which opens every entry's reader): a panic (exit 101) or a hang is a violation of C07"""
+    arch = hostile_phsf_archives()
+    if limit:
+        arch = random.Random(c.seed).sample(arch, min(limit, len(arch)))
+    runs = 0
+    with cli.Sandbox("phsf") as sb:
+        d = sb.path("h")
+        os.makedirs(os.path.join(d, "o"))
+        f = os.path.join(d, "in.pna")
+        cmds = [(n, m) for n, m in READ_CMDS if n in DECRYPT_CMDS]
+        for i, data in enumerate(arch):
+            for name, mk in cmds:
+                with open(f, "wb") as fh:
+                    fh.write(data)
+                r = cli.run_pna(mk(f, os.path.join(d, "o")) + ["--password", "pw"], cwd=sb.root, timeout=30)
+                runs += 1
+                if r["timeout"] or r["rc"] == 101 or (r["rc"] is not None and r["rc"] < 0):
+                    what = "hangs (30 s)" if r["timeout"] else "panics (exit 101)" if r["rc"] == 101 else "killed by signal %d" % -r["rc"]
+                    c.violations.append(("cli", "`pna %s --password` %s on an encrypted entry with a foreign key-derivation string" % (name, what),
+                                         "input (hex): %s\ncommand: %s\nstderr: %s" % (data.hex(), r["cmd"].replace(sb.root, "<sandbox>"),
+                                                                                        r["err"].decode("utf-8", "replace")[-600:]), True))
+            # the library directly: dump opens every entry with the password and reads it to the end
+            with open(f, "wb") as fh:
+                fh.write(data)
+            if not os.path.exists(core.harness_bin("dump")):
+                core.build_harness(["dump"])
+            try:
+                p = subprocess.run([core.harness_bin("dump"), "--password", "pw", f], stdout=subprocess.PIPE, stderr=subprocess.PIPE, timeout=60)
+                bad = "panics" if (p.returncode == 101 or b"panicked" in p.stderr) else None
+                err = p.stderr
+            except subprocess.TimeoutExpired:
+                bad, err = "hangs (60 s)", b""
+            if bad:
+                c.violations.append(("cli", "libpna %s while opening an encrypted entry with a foreign key-derivation string" % bad,
+                                     "input (hex): %s\nharness dump --password pw in.pna\nstderr: %s" % (data.hex(), err.decode("utf-8", "replace")[-600:]), True))
+            runs += 1
+    c.cov["evaluations"] += runs
+    c.cov["cli_runs"] = c.cov.get("cli_runs", 0) + runs
+    c.hist["cli:hostile-phsf"] = runs
+    return runs
